@@ -298,9 +298,9 @@ theorem getExtension_of_canon_eq (a b : Header) (h : C01.canonH a = C01.canonH b
   rw [← getExtension_canonH a, ← getExtension_canonH b, h]
 
 /-- the final part of the predicate holds of the model for a header in the domain of the round
-    trip theorem (or one that Marshal refuses) -/
+    trip theorem, or one that Marshal refuses, or one that shows no element -/
 theorem finalOk_model (hrt : HeaderRoundTrip) (h : Header)
-    (hw : (C01.wfH h || (hdrMarshal h).isErr) = true) : finalOk (view h) (modelFinal h) = true := by
+    (hw : finalWfH h = true) : finalOk (view h) (modelFinal h) = true := by
   cases hm : hdrMarshal h with
   | panic => exact absurd hm (hdrMarshal_ne_panic h)
   | err e =>
@@ -311,17 +311,28 @@ theorem finalOk_model (hrt : HeaderRoundTrip) (h : Header)
     simp only [view, hx, if_true, hes, List.map_cons, toPair]
     simpa using hlen
   | ok bs =>
-    have hwf : C01.wfH h = true := by simpa [hm, Res.isErr] using hw
-    obtain ⟨bs', hm', hun⟩ := hrt h hwf
-    rw [hm] at hm'
-    simp only [Res.ok.injEq] at hm'
-    subst hm'
-    obtain ⟨h', hu, hc⟩ := hun {}
-    simp only [finalOk, modelFinal, hm, Res.coarse, hu, Res.map, beq_self_eq_true, Bool.true_and,
-      beq_iff_eq]
-    rw [ids_view]
-    apply List.map_congr_left
-    intro k _
-    rw [getExtension_of_canon_eq h' h hc, get_view]
+    by_cases hwf : C01.wfH h = true
+    · obtain ⟨bs', hm', hun⟩ := hrt h hwf
+      rw [hm] at hm'
+      simp only [Res.ok.injEq] at hm'
+      subst hm'
+      obtain ⟨h', hu, hc⟩ := hun {}
+      simp only [finalOk, modelFinal, hm, Res.coarse, hu, Res.map, beq_self_eq_true, Bool.or_true, Bool.true_and,
+        beq_iff_eq]
+      rw [ids_view]
+      apply List.map_congr_left
+      intro k _
+      rw [getExtension_of_canon_eq h' h hc, get_view]
+    · have hids : getExtensionIDs h = [] := by
+        simpa [finalWfH, hwf, hm, Res.isErr] using hw
+      have hv : view h = [] := by
+        have := ids_view h
+        rw [hids] at this
+        cases hvv : view h with
+        | nil => rfl
+        | cons a l => rw [hvv] at this; simp [Spec.OrderedMap.keys] at this
+      simp only [finalOk, modelFinal, hm, Res.coarse, hids, hv, List.isEmpty_nil, Bool.true_or, Bool.true_and,
+        Spec.OrderedMap.keys, List.map_nil, beq_iff_eq]
+      split <;> rfl
 
 end Rtp.Proofs.HeaderExt
